@@ -9,7 +9,7 @@ LEVEL = 'exploration'
 RULE = ('all time-only programs of the grammar (roots x scripts over D/EQ/GE/LT/INSTANT/ETERNITY with '
         'colliding small dates, wrapped in scope.do(after|at) and until(delay|date)), for 3 start times; connectives of time '
         'atoms in every nesting; 5 (thorough: 6) activities with delay plans that keep many distinct dates pending; run(till=...) for every '
-        'start time; '
+        'start time; one condition object shared by several waits and guards; delays / dates / ticker periods of 2**-32 and 2**-40; '
         'non-trivial = at least two activities have operations ending in the same time step, or an operation '
         'can never resume, or a date is already reached/past when awaited')
 ASSUMPTIONS = [
@@ -148,6 +148,29 @@ def cases(tier):
             for s1 in scripts(SMALL, 2, 1):
                 for s2 in ([['D', 1]], [['D', 3]], [['GE', 2], ['D', 1]], [['ETERNITY']]):
                     progs.append({'start': st, 'till': till, 'roots': [['a', s1], ['b', s2]]})
+    # family J: very short delays, dates and periods (a wait of 2**-32 is a wait, not "no time")
+    for tiny in (2.0 ** -32, 2.0 ** -40):
+        for st in (0, 3):
+            others = [[['D', tiny]], [['D', tiny], ['D', tiny]], [['EQ', 2 * tiny]], [['GE', tiny], ['INSTANT']], [['D', 1]]]
+            for s1 in ([['INTERVAL', tiny, 3, [[], [], []]]], [['DELAYLOOP', tiny, 3, [[], [], []]]],
+                       [['INTERVAL', tiny, 3, [[['INSTANT']], [], [['D', tiny / 2]]]]], [['D', tiny], ['EQ', 3 * tiny]],
+                       [['UNTIL', 'u', ['DELAY', tiny], [['D', 1]]], ['INSTANT']], [['UNTIL', 'u', ['EQ', 2 * tiny], [['D', tiny], ['D', 1]]]]):
+                for s2 in others:
+                    progs.append({'start': st, 'roots': [['a', s1], ['b', s2]]})
+    # family K: ONE condition object used in several places at once by the same activity (guard of an until block and
+    # an inner wait / inner guard that is abandoned earlier) and by two activities
+    for st in STARTS:
+        for spec in (['GE', 2], ['EQ', 2]):
+            K = ['C', 'K']
+            for s1 in ([['UNTIL', 'u', K, [['UNTIL', 'v', ['DELAY', 1], [['WAIT', K]]], ['D', 5]]], ['INSTANT']],
+                       [['UNTIL', 'u', K, [['UNTIL', 'v', K, [['D', 5]]], ['D', 5]]], ['INSTANT']],
+                       [['UNTIL', 'u', K, [['UNTIL', 'v', ['DELAY', 1], [['WAIT', ['OR', K, ['GE', 5]]]]], ['D', 5]]], ['INSTANT']],
+                       [['UNTIL', 'u', K, [['UNTIL', 'v', ['DELAY', 1], [['UNTIL', 'w', K, [['D', 5]]]]], ['D', 5]]], ['INSTANT']],
+                       [['UNTIL', 'v', ['DELAY', 1], [['WAIT', K]]], ['WAIT', K], ['INSTANT']],
+                       [['WAIT', K], ['WAIT', K]]):
+                for s2 in ([['D', 1]], [['WAIT', K], ['INSTANT']], [['UNTIL', 'x', ['DELAY', 1], [['WAIT', K]]], ['D', 3]],
+                           [['UNTIL', 'x', K, [['D', 4]]], ['INSTANT']]):
+                    progs.append({'start': st, 'conds': {'K': spec}, 'roots': [['a', s1], ['b', s2]]})
     # drop programs that are not valid usim programs (start date in the past)
     valid = []
     for p in progs:
